@@ -98,6 +98,37 @@ def utf16 (rs : List Nat) : List UInt16 := rs.flatMap utf16One
 def scan (s : List UInt8) : Option (List UInt16) :=
   if s.all asciiB then none else some (utf16 (decode s))
 
+/-! ### unistring.Scan as coded: two passes (unistring/string.go:25-57)
+
+Pass 1 counts: `utf16Size` = index of the first byte >= 0x80, then for every rune of the REST `+1`, and `+1` more
+if `chr > 0xFFFF`.  The buffer is `make([]uint16, utf16Size+1)` (BOM at 0).  Pass 2 ranges over the WHOLE string and
+stores one unit if `chr <= 0xFFFF`, else the surrogate pair.  `scan` above is the one-pass specification; `scanTwoPass`
+is the mechanism; `scanTwoPass_eq_scan` (Props) shows they agree, and Tie.scanTests_ok ties the two comparison
+constants to the source.  (If pass 2 wrote more units than pass 1 counted Go would panic; the model truncates.) -/
+
+def scanCountTest : String × Nat := (">", 0xFFFF)
+def scanFillTest : String × Nat := ("<=", 0xFFFF)
+
+/-- pass 1 over the runes of the non-ASCII rest -/
+def countUnits : List Nat → Nat
+  | [] => 0
+  | r :: rs => (if r > scanCountTest.2 then 2 else 1) + countUnits rs
+
+def scanSize (s : List UInt8) : Nat :=
+  (s.takeWhile asciiB).length + countUnits (decode (s.dropWhile asciiB))
+
+/-- pass 2 -/
+def fillUnits : List Nat → List UInt16
+  | [] => []
+  | r :: rs =>
+    (if r ≤ scanFillTest.2 then [UInt16.ofNat r]
+     else [UInt16.ofNat (0xD800 + (r - 0x10000) / 1024), UInt16.ofNat (0xDC00 + (r - 0x10000) % 1024)]) ++ fillUnits rs
+
+/-- payload (without the BOM) of the buffer returned by unistring.Scan; none = nil -/
+def scanTwoPass (s : List UInt8) : Option (List UInt16) :=
+  if s.all asciiB then none
+  else some ((fillUnits (decode s) ++ List.replicate (scanSize s) 0).take (scanSize s))
+
 /-! ## the three representations -/
 
 inductive Str where
